@@ -301,3 +301,87 @@ _add(Cond('site_fill_across_blocks_kinds', [('k0', 'int'), ('k1', 'int'), ('k2',
         functions=['TypeBlocks._fillna_directional_axis_1', 'resolve_dtype'],
         bounds='one-row frame of 3 columns; the kind of every column symbolic over (float64, int64, bool), float cells possibly missing (symbolic); every block layout that can hold the kinds',
         route='fillna_forward / fillna_backward(axis=1): a value carried from a block of one kind into a block of another kind is stored without loss (value and type)', timeout=300))
+
+
+# ---------------------------------------------------------------- a FRAME value assigned into a block: every value column keeps its cells
+
+VAL_KINDS = (('int64', (7, 8)), ('float64', (1.5, 2.75)), ('bool', (True, False)), ('<U3', ('ab', 'xyz')))
+
+
+def body_assign_frame_value(env, k0, k1, rows_all, tlay, vsplit):
+    from vf import rt
+    ka, kb = pick((0, 1, 2, 3), k0), pick((0, 1, 2, 3), k1)
+    rows_all, tlay, vsplit = bool(rows_all), pick((0, 1, 2), tlay), bool(vsplit)
+
+    def run():
+        sf = env.sf
+        from static_frame.core.type_blocks import TypeBlocks
+        from vf import layouts
+        # target: 3 rows x 3 int64 columns a b c; layout: one 2-D block / 2-D (a, b) + 1-D c / three 1-D blocks
+        tl = (((2, 3),), ((2, 2), (1, 1)), ((1, 1), (1, 1), (1, 1)))[tlay]
+        trow = [[100 * (r + 1) + c for c in range(3)] for r in range(3)]
+        tcols = [[trow[r][c] for r in range(3)] for c in range(3)]
+        f = sf.Frame(TypeBlocks.from_blocks(layouts.build_blocks(env, tcols, 'int64', tl)), index=[10, 11, 12], columns=['a', 'b', 'c'])
+        va, vb = VAL_KINDS[ka], VAL_KINDS[kb]
+        vrows = [10, 11] if not rows_all else [10, 11, 12]
+        acol = list(va[1]) + ([va[1][0]] if rows_all else [])
+        bcol = list(vb[1]) + ([vb[1][0]] if rows_all else [])
+        if vsplit or va[0] != vb[0]:
+            value = sf.Frame.from_items((('a', env.array(acol, va[0])), ('b', env.array(bcol, vb[0]))), index=vrows)
+        else:
+            value = sf.Frame(env.array([[x, y] for x, y in zip(acol, bcol)], va[0]), index=vrows, columns=['a', 'b'])
+        r = f.assign.loc[vrows, ['a', 'b']](value)
+        got = [[env.obs(r.loc[i, c]) for c in ('a', 'b', 'c')] for i in (10, 11, 12)]
+        exp = []
+        for ri, i in enumerate((10, 11, 12)):
+            if i in vrows:
+                exp.append([env.obs(acol[vrows.index(i)]), env.obs(bcol[vrows.index(i)]), trow[ri][2]])
+            else:
+                exp.append(list(trow[ri]))
+        return [got, env.obs(f.values.tolist())], [exp, trow]
+    return rt.untraced(run)
+
+
+_add(Cond('site_assign_frame_value_kinds', [('k0', 'int'), ('k1', 'int'), ('rows_all', 'bool'), ('tlay', 'int'), ('vsplit', 'bool')], body_assign_frame_value,
+        ranges={'k0': (0, 3), 'k1': (0, 3), 'tlay': (0, 2)},
+        functions=['TypeBlocks._assign_from_iloc_by_blocks'],
+        bounds='3x3 int64 target in three block layouts (symbolic); Frame value over columns a, b whose kinds are symbolic over (int64, float64, bool, str) each, held in one or in separate blocks; partial or full row key (symbolic)',
+        route='Frame.assign.loc[rows, [a, b]](Frame): every assigned cell equals (value and type) the supplied one whatever the kinds of the neighbouring value columns; other cells and the original unchanged', timeout=400))
+
+
+# ---------------------------------------------------------------- grow-only frames: a later, WIDER column of the same kind
+
+GROW_KINDS = (('<U1', ('l', 'r')), ('<U6', ('left', 'right')), ('int64', (3, 4)), ('float64', (1.5, 2.5)), ('bool', (True, False)))
+
+
+def body_framego_growth_widths(env, k0, k1, k2, how):
+    from vf import rt
+    ks = [pick((0, 1, 2, 3, 4), k) for k in (k0, k1, k2)]
+    how = pick((0, 1, 2), how)
+
+    def run():
+        sf = env.sf
+        parts = [GROW_KINDS[k] for k in ks]
+        g = sf.FrameGO.from_items((('a', env.array(list(parts[0][1]), parts[0][0])),), index=[10, 11])
+        if how == 0:
+            g['b'] = env.array(list(parts[1][1]), parts[1][0])
+            g['c'] = env.array(list(parts[2][1]), parts[2][0])
+        elif how == 1:
+            g.extend(sf.Frame.from_items((('b', env.array(list(parts[1][1]), parts[1][0])), ('c', env.array(list(parts[2][1]), parts[2][0]))), index=[10, 11]))
+        else:
+            g['b'] = sf.Series(env.array(list(parts[1][1]), parts[1][0]), index=[10, 11])
+            g.extend(sf.Series(env.array(list(parts[2][1]), parts[2][0]), index=[10, 11], name='c'))
+        rows = [[parts[c][1][r] for c in range(3)] for r in range(2)]
+        ref = [[env.obs(v) for v in row] for row in rows]
+        got = [env.obs(g.values.tolist()), [env.obs(a.tolist()) for a in g.iter_array(axis=1)], env.obs(g.transpose().values.tolist()),
+               [env.obs(s.values.tolist()) for s in g.iter_series(axis=1)], env.obs(g.to_frame().values.tolist()), [[env.obs(g.iloc[r, c]) for c in range(3)] for r in range(2)]]
+        exp = [ref, ref, [[ref[r][c] for r in range(2)] for c in range(3)], ref, ref, ref]
+        return got, exp
+    return rt.untraced(run)
+
+
+_add(Cond('site_framego_growth_dtype_widths', [('k0', 'int'), ('k1', 'int'), ('k2', 'int'), ('how', 'int')], body_framego_growth_widths,
+        ranges={'k0': (0, 4), 'k1': (0, 4), 'k2': (0, 4), 'how': (0, 2)},
+        functions=['TypeBlocks.append', 'TypeBlocks.extend'],
+        bounds=f'FrameGO grown from one to three columns by setitem / extend(Frame) / setitem(Series) + extend(Series) (symbolic); the dtype of every column symbolic over {[k for k, _ in GROW_KINDS]} (narrow then wide strings, mixed kinds)',
+        route='after growth every whole-row view (values, iter_array(axis=1), transpose, iter_series(axis=1), to_frame, element reads) holds exactly the supplied cells', timeout=400))
